@@ -234,6 +234,7 @@ def run(R):
     conv.validate_conversions(R, NAMES, R.n(120, 2500))
     n = R.n(1500, 60000)
     for name, bad in (('planes', plane_oracle(R, C, n)), ('batch', batch_oracle(R, C, R.n(40, 1500))),
+                      ('batches', conv.batch_oracle(R, C, ['normal_SD', 'FP_SDR', 'FP_TNP', 'TNP_SDR'], R.n(4, 60))),
                       ('results', results_oracle(R, C, R.n(200, 6000)))):
         if bad:
             R.violation('nodal-plane / axes property fails (%s)' % bad['check'], bad)
@@ -249,6 +250,8 @@ def run(R):
 def replay(R, body):
     C = conv.impl()
     rp = body['replay']
+    if str(rp.get('check', '')).startswith('batch-of-'):
+        return conv.batch_replay(C, rp)
     if 'strike' in rp and not isinstance(rp['strike'], list):
         s, d, r = rp['strike'], rp['dip'], rp['rake']
         fr = frame_of(s, d, r)
